@@ -120,7 +120,87 @@ theorem PureV_unsnoc (S : Schema) : ∀ (d : Nat) (c G : List Node), PureV S (d 
     obtain ⟨t', a', m', hp, hm'⟩ := PureV_unsnoc S d k G hk
     exact ⟨t', a', m', ⟨t, a, m, k, hc, hm, hp⟩, hm'⟩
 
-theorem PureV_last_type (S : Schema) : ∀ (d : Nat) (c G : List Node), PureV S d c G → True
-  | _, _, _, _ => trivial
+/-- appending valid nodes behind a fragment that is valid up to its open start -/
+theorem leftOpenValid_fappend (S : Schema) (x : Nat) (G X : List Node) (h : leftOpenValid S x G = true)
+    (hX : S.checkKids X = true) : leftOpenValid S x (fappend G X) = true := by
+  cases x with
+  | zero =>
+    simp only [leftOpenValid] at h ⊢
+    exact fappend_checkKids S G X h hX
+  | succ x =>
+    cases G with
+    | nil => simp [leftOpenValid] at h
+    | cons n rest =>
+      cases n with
+      | elem t a m k =>
+        simp only [leftOpenValid, Bool.and_eq_true] at h
+        obtain ⟨tl', e1, e2⟩ := fappend_cons_elem_fit t a m k rest X
+        rw [e1, e2]
+        simp only [leftOpenValid, Bool.and_eq_true]
+        exact ⟨h.1, fappend_checkKids S rest X h.2 hX⟩
+      | text s m => simp [leftOpenValid] at h
+      | leaf t a m => simp [leftOpenValid] at h
+
+/-- **`close_frontier_node` on the chain**: the node it closes (the deepest of the chain, `x` levels of
+    the document's start spine still below it) receives valid fillers and becomes the fragment the
+    shorter chain leads to — valid up to its open start -/
+theorem closeFrontierNode_pureV (S : Schema) (hdet : DetS S) (hleaf : PM.FromDom.LeafOk S) (fr : List FItem)
+    (placed : List Node) (b x : Nat) (G : List Node) (hlen : fr.length = b + 2)
+    (hp : PureV S (b + 1) placed G) (hG : leftOpenValid S x G = true)
+    (r : List FItem × List Node) (h : closeFrontierNode S fr placed = .ok r) :
+    r.1.length = b + 1 ∧ ∃ G', PureV S b r.2 G' ∧ leftOpenValid S (x + 1) G' = true := by
+  unfold closeFrontierNode at h
+  split at h
+  · simp [throw, throwThe, MonadExceptOf.throw] at h
+  · obtain ⟨q, _, h⟩ := FM.bind_ok h
+    obtain ⟨add, hadd, h⟩ := FM.bind_ok h
+    have hfin : ∀ (p : List Node) (G2 : List Node), PureV S (b + 1) p G2 → leftOpenValid S x G2 = true →
+        ∃ G', PureV S b p G' ∧ leftOpenValid S (x + 1) G' = true := by
+      intro p G2 hp2 hG2
+      obtain ⟨t, a, m, hp3, hm⟩ := PureV_unsnoc S b p G2 hp2
+      exact ⟨_, hp3, by simp [leftOpenValid, hm, hG2]⟩
+    have hl : fr.dropLast.length = b + 1 := by rw [List.length_dropLast, hlen]; rfl
+    cases add with
+    | none =>
+      have := pure_ok h
+      subst this
+      exact ⟨hl, hfin placed G hp hG⟩
+    | some a =>
+      simp only at h
+      split at h
+      · have := pure_ok h
+        subst this
+        exact ⟨hl, hfin placed G hp hG⟩
+      · obtain ⟨p, hp', h⟩ := FM.bind_ok h
+        have := pure_ok h
+        subst this
+        rw [hl] at hp'
+        obtain ⟨G', hG', hpp⟩ := addToFragment_pure S (b + 1) 0 placed G a p hp (by simpa using hp')
+        have e : G' = fappend G a := (pure_ok hG').symm
+        subst e
+        exact ⟨hl, hfin p _ hpp (leftOpenValid_fappend S x G a hG (fillOpt_valid S hdet hleaf _ _ _ _ a hadd))⟩
+
+/-- the final `while` of `fit` keeps payload validity -/
+theorem normalizeOpen_openValid (S : Schema) : ∀ (n : Nat) (c : List Node) (os oe : Nat),
+    openValid S os oe c = true →
+    openValid S (normalizeOpen n c os oe).2.1 (normalizeOpen n c os oe).2.2 (normalizeOpen n c os oe).1 = true
+  | 0, c, os, oe, h => h
+  | n + 1, c, os, oe, h => by
+    unfold normalizeOpen
+    split
+    · rename_i only
+      split
+      · rename_i hc
+        simp only [bne_iff_ne, ne_eq, Bool.and_eq_true] at hc
+        obtain ⟨os', rfl⟩ : ∃ os', os = os' + 1 := ⟨os - 1, by omega⟩
+        obtain ⟨oe', rfl⟩ : ∃ oe', oe = oe' + 1 := ⟨oe - 1, by omega⟩
+        cases only with
+        | elem t a m k =>
+          simp only [openValid, Bool.and_eq_true] at h
+          exact normalizeOpen_openValid S n k os' oe' h.2
+        | text s m => simp [openValid] at h
+        | leaf t a m => simp [openValid] at h
+      · exact h
+    · exact h
 
 end PM
